@@ -32,6 +32,9 @@ type jitterCase struct {
 	// whole chain becomes one vertex although its ends are 1.8 eps apart; eps = separation/4.5 keeps copies
 	// of different vertices more than 2.7 eps apart, whose grid cells can never touch.
 	Chain bool `json:"chain,omitempty"`
+	// Far: the whole soup is moved this far from the origin (a model in a big scene, or in small units): eps stays
+	// thousands of ulps of the coordinates, but coordinate / eps exceeds 2^31
+	Far float64 `json:"far,omitempty"`
 }
 
 func genJitter(t *rapid.T) jitterCase {
@@ -46,6 +49,9 @@ func genJitter(t *rapid.T) jitterCase {
 	c.JitFrac = rapid.SampledFrom([]float64{0.45, 0.45, 0.3, 0.1, 0}).Draw(t, "jitfrac")
 	c.Seed = rapid.Uint64().Draw(t, "seed")
 	c.Chain = gen.Int(t, 0, 3, "chain") == 0
+	if gen.Int(t, 0, 3, "far") == 0 {
+		c.Far = rapid.SampledFrom([]float64{1e3, 1e5, 1e6, 1e7}).Draw(t, "fardist")
+	}
 	return c
 }
 
@@ -68,6 +74,15 @@ func checkJitter(c jitterCase, o *kit.Obs) error {
 	if len(base) == 0 {
 		return nil
 	}
+	if c.Far != 0 {
+		off := kit.V3{c.Far, -0.7 * c.Far, 0.3 * c.Far}
+		moved := make([]kit.Tri, len(base))
+		for i, t := range base {
+			moved[i] = kit.Tri{t[0].Add(off), t[1].Add(off), t[2].Add(off)}
+		}
+		base = moved
+		o.Labelf("far:%g", c.Far)
+	}
 	vs := sortedVerts(base)
 	if len(vs) > 1500 {
 		o.Skip("mesh too large")
@@ -79,7 +94,7 @@ func checkJitter(c jitterCase, o *kit.Obs) error {
 	for _, v := range vs {
 		scale = math.Max(scale, v.MaxAbs())
 	}
-	if !(eps > 1e-9*scale) {
+	if !(eps > 1e-11*scale) {
 		// the grid hash divides by eps: keep eps far above the rounding of the coordinates
 		o.Skip("eps too close to coordinate rounding")
 		return nil
